@@ -776,6 +776,32 @@ func checkLenValidator(c *Ctx, r *Run, rel, typ, method string) {
 	okLen, okZero := false, false
 	var lenK int64 = -1
 	zeroDetail := "no all-zero rejection"
+	keyFn := fn
+	valParam := ssa.Value(fn.Params[0])
+	var lenParam ssa.Value // the parameter holding the valid length when the check lives in a shared helper
+	// a wrapper `return validate(kind, x, K)`: the check is examined inside the helper, with the value parameter bound
+	// to the receiver and the length parameter bound to the constant K of this call
+	if rets := returnsOf(fn); len(rets) == 1 && len(rets[0].Results) == 1 {
+		if call, ok := rets[0].Results[0].(*ssa.Call); ok {
+			if g := localHelperOf(call); g != nil {
+				vi, li := -1, -1
+				for i, a := range call.Call.Args {
+					if stripConv(a) == ssa.Value(fn.Params[0]) {
+						vi = i
+					} else if k, isK := constInt(a); isK && k > 0 {
+						li = i
+						lenK = k
+					}
+				}
+				if vi >= 0 && li >= 0 && vi < len(g.Params) && li < len(g.Params) {
+					fn, valParam, lenParam = g, g.Params[vi], g.Params[li]
+				} else {
+					lenK = -1
+				}
+			}
+		}
+	}
+	isVal := func(v ssa.Value) bool { return v == valParam || stripConv(v) == valParam }
 	allInstrs(fn, func(in ssa.Instruction) {
 		iff, ok := in.(*ssa.If)
 		if !ok {
@@ -784,9 +810,9 @@ func checkLenValidator(c *Ctx, r *Run, rel, typ, method string) {
 		// the other accepted form: bytes.Equal(x, Z) with Z an all-zero buffer of exactly the valid length
 		if call, eqOnTrue := bytesEquality(iff.Cond); call != nil && len(call.Call.Args) == 2 {
 			var z ssa.Value
-			if call.Call.Args[0] == ssa.Value(fn.Params[0]) || stripConv(call.Call.Args[0]) == ssa.Value(fn.Params[0]) {
+			if isVal(call.Call.Args[0]) {
 				z = call.Call.Args[1]
-			} else if stripConv(call.Call.Args[1]) == ssa.Value(fn.Params[0]) {
+			} else if isVal(call.Call.Args[1]) {
 				z = call.Call.Args[0]
 			}
 			if z != nil {
@@ -814,8 +840,12 @@ func checkLenValidator(c *Ctx, r *Run, rel, typ, method string) {
 			return
 		}
 		if call, isC := bo.X.(*ssa.Call); isC {
-			if b, isB := call.Call.Value.(*ssa.Builtin); isB && b.Name() == "len" && call.Call.Args[0] == ssa.Value(fn.Params[0]) {
-				if _, isConst := bo.Y.(*ssa.Const); isConst && (bo.Op == token.NEQ || bo.Op == token.EQL) {
+			if b, isB := call.Call.Value.(*ssa.Builtin); isB && b.Name() == "len" && isVal(call.Call.Args[0]) {
+				_, isConst := bo.Y.(*ssa.Const)
+				if lenParam != nil {
+					isConst = stripConv(bo.Y) == lenParam
+				}
+				if isConst && (bo.Op == token.NEQ || bo.Op == token.EQL) {
 					// mismatch edge returns non-nil
 					mis := iff.Block().Succs[0]
 					if bo.Op == token.EQL {
@@ -824,7 +854,9 @@ func checkLenValidator(c *Ctx, r *Run, rel, typ, method string) {
 					for _, x := range mis.Instrs {
 						if ret, isR := x.(*ssa.Return); isR && len(ret.Results) == 1 && !isNilConst(ret.Results[0]) {
 							okLen = true
-							lenK, _ = constInt(bo.Y)
+							if lenParam == nil {
+								lenK, _ = constInt(bo.Y)
+							}
 						}
 					}
 				}
@@ -842,8 +874,8 @@ func checkLenValidator(c *Ctx, r *Run, rel, typ, method string) {
 		}
 	}
 	key := rel + "." + typ + "." + method
-	r.Check("ENC-1", key+"|exact-length", c.Pos(fn.Pos()), okLen, "supporting invariant: "+typ+" has exactly one valid length (so its raw bytes are a fixed-width segment)", "no `len(x) != const -> error` guard")
-	r.Check("COM-1", key+"|rejects-all-zero", c.Pos(fn.Pos()), okZero && lastErr, typ+".Validate refuses an all-zero value", zeroDetail)
+	r.Check("ENC-1", key+"|exact-length", c.Pos(keyFn.Pos()), okLen, "supporting invariant: "+typ+" has exactly one valid length (so its raw bytes are a fixed-width segment)", "no `len(x) != const -> error` guard")
+	r.Check("COM-1", key+"|rejects-all-zero", c.Pos(keyFn.Pos()), okZero && lastErr, typ+".Validate refuses an all-zero value", zeroDetail)
 }
 
 // ---------- DOM-1 ----------
@@ -1075,9 +1107,44 @@ func checkCommit(c *Ctx, r *Run) {
 		r.Unresolved("COM-1", "pkg/hash Commit/Decommit/WriteAny/Clone/Sum")
 		return
 	}
-	for _, fn := range []*ssa.Function{commit, decommit} {
-		r.Analysed(c.FuncName(fn))
-		key := "pkg/hash.(*Hash)." + fn.Name()
+	for _, top := range []*ssa.Function{commit, decommit} {
+		r.Analysed(c.FuncName(top))
+		key := "pkg/hash.(*Hash)." + top.Name()
+		// the derivation (clone, write items, write decommitment, sum) may live in a helper shared by Commit and Decommit:
+		// it is examined where the digest is taken, and the caller must honour the helper's error
+		fn := top
+		helperErrHonoured := true
+		for _, g := range regionOf(top) {
+			if g == top {
+				continue
+			}
+			hasSum := false
+			allInstrs(g, func(in ssa.Instruction) {
+				if call, ok := in.(*ssa.Call); ok && call.Call.StaticCallee() == sum {
+					hasSum = true
+				}
+			})
+			if !hasSum {
+				continue
+			}
+			fn = g
+			helperErrHonoured = false
+			allInstrs(top, func(in ssa.Instruction) {
+				call, ok := in.(*ssa.Call)
+				if !ok || call.Call.StaticCallee() != g {
+					return
+				}
+				for _, ref := range *call.Referrers() {
+					if ex, isEx := ref.(*ssa.Extract); isEx && isErrorType(ex.Type()) {
+						for _, r2 := range *ex.Referrers() {
+							if bo, isBo := r2.(*ssa.BinOp); isBo && isNilConst(bo.Y) {
+								helperErrHonoured = true
+							}
+						}
+					}
+				}
+			})
+		}
 		var cloneCall *ssa.Call
 		var writes []*ssa.Call
 		var sumCall *ssa.Call
@@ -1111,8 +1178,12 @@ func checkCommit(c *Ctx, r *Run) {
 				continue
 			}
 			if dependsOn(elem, func(v ssa.Value) bool {
-				if p, ok := v.(*ssa.Parameter); ok && p.Name() == "data" {
-					return true
+				if p, ok := v.(*ssa.Parameter); ok {
+					if sl, isSl := p.Type().Underlying().(*types.Slice); isSl {
+						if it, isI := sl.Elem().Underlying().(*types.Interface); isI && it.NumMethods() == 0 {
+							return true // the variadic data items
+						}
+					}
 				}
 				return false
 			}) {
@@ -1141,6 +1212,7 @@ func checkCommit(c *Ctx, r *Run) {
 				}
 			}
 		}
+		okErr = okErr && helperErrHonoured
 		r.Check("COM-1", key+"|item-error-honoured", c.Pos(fn.Pos()), okErr, "a failing item write makes the operation fail (no commitment to a partial transcript)", "WriteAny error on an item is ignored")
 	}
 	// Decommit specifics
@@ -1212,7 +1284,7 @@ func checkCommit(c *Ctx, r *Run) {
 			if a0 == ssa.Value(cP) {
 				other = a1
 			}
-			if oc, ok := other.(*ssa.Call); !ok || oc.Call.StaticCallee() != sum {
+			if oc, ok := resultThroughHelpers(other).(*ssa.Call); !ok || oc.Call.StaticCallee() != sum {
 				okEq = false
 			}
 		}
